@@ -22,9 +22,13 @@ ASSUMPTIONS = ['formatting inside decorators is restricted to the simple {key} g
 
 def run(env, res):
     res.rule = ('directed families (expectation from the property text) first, then seeded random pipelines '
-                '(1-3 pipelines, 1-4 groups, 0-4 steps per group, decorators with p~0.25 each); a case is '
+                '(1-3 pipelines, 1-4 groups, 0-4 steps per group, decorators with p~0.25 each, foreach items incl. '
+                'None/0/\'\'/False/[]/{}, 12% with a malformed group body or sequence item, 35% written in another '
+                'yaml layout: flow style, JSON, first step on line 1, other indentation); a case is '
                 'non-trivial when the model accepts it and it terminates; distinct by canonical program text')
-    directed = [('c01-straight', fo.c01_family, env.n(400, 100000)), ('c01-random-straight', fo.c01_random_straight, env.n(300, 6000))]
+    directed = [('c01-straight', fo.c01_family, env.n(400, 100000)), ('c01-random-straight', fo.c01_random_straight, env.n(300, 6000)),
+                ('c01-malformed-failure-group', fo.c01_malformed_failure_family, env.n(120, 100000)),
+                ('c01-malformed-group', fo.c01_malformed_group_family, env.n(60, 100000))]
     flowcheck.run_streams(env, res, directed, env.n(400, 15000), weights={'fail': 5, 'stop': 1, 'stopstepgroup': 1, 'stoppipeline': 1},
                           random_monitor=flowcheck.monitor_all)
 
